@@ -21,7 +21,6 @@ Variable strict : Z.
 Hypothesis Hs0 : Z.testbit strict 0 = true.
 Hypothesis Hs1 : Z.testbit strict 1 = true.
 Hypothesis Hs2 : Z.testbit strict 2 = true.
-Hypothesis Hs3 : Z.testbit strict 3 = true.
 
 Notation den := (den e).
 Notation sok := (st_ok e).
@@ -288,7 +287,7 @@ Lemma fo_pn_S f node sub ctx :
     | lastk :: rpre => do l' <- fo_pn cat_in isw isew f strict lastk sub ctx ; Ok (set_kids node (rev (l' :: rpre)))
     end
   else if t =? T_Loop then
-    do r <- fo_loop_last strict node (fun first lastc =>
+    do r <- fo_loop_last false strict node (fun first lastc =>
               do b <- fo_cbma cat_in isw isew f strict lastc first [] false false false ;
               if b then (do l' <- leaf lastc ; Ok (Some l')) else Ok None) ;
     match r with Some node' => Ok node' | None => Ok node end
@@ -342,6 +341,157 @@ Qed.
 Lemma rev_cons_inv {A} (l : list A) x r : rev l = x :: r -> l = rev r ++ [x].
 Proof. intros H. rewrite <- (rev_involutive l), H. reflexivity. Qed.
 
+(* ---- FindLastExpressionInLoopForAutoAtomic (853-880): the last child L of the body of a loop, disjoint from the
+   body's first child *)
+Definition goodK (P : st -> Prop) (K : kont) : Prop := KD P K \/ KT K.
+
+Lemma goodK_ext P K K' : (forall a, K a = K' a) -> goodK P K' -> goodK P K.
+Proof.
+  intros H [HD|HT]; [left|right].
+  - intros s Hs Hp. rewrite H. apply HD; assumption.
+  - intros s Hs. rewrite H. apply HT; assumption.
+Qed.
+Definition pos_only (P : st -> Prop) : Prop := forall a b, pos a = pos b -> P a -> P b.
+Lemma pos_only_PQ n : pos_only (PQ n).
+Proof. intros a b H. apply (PQ_pos cat_in e n a b H). Qed.
+
+Lemma goodK_kcap P K g s0 : pos_only P -> sok s0 -> goodK P K -> goodK P (kcap g (-1) s0 K).
+Proof.
+  intros HP Hs0' [HD|HT]; [left|right].
+  - intros a Ha Hp. unfold kcap. destruct (sok_capture_plain e g s0 a Hs0' Ha) as (b & -> & Hb & Hpb). cbn [flat_map].
+    rewrite (HD b Hb (HP a b (eq_sym Hpb) Hp)). reflexivity.
+  - intros a Ha. unfold kcap. destruct (sok_capture_plain e g s0 a Hs0' Ha) as (b & -> & Hb & Hpb). cbn [flat_map].
+    specialize (HT b Hb). destruct (K b); [contradiction|discriminate].
+Qed.
+
+Lemma body_last_sound (k : rnode -> rnode -> res (option rnode)) :
+  forall body body', fo_body_last strict body k = Ok (Some body') -> node_ok body ->
+  exists first lastc l', k first lastc = Ok (Some l') /\ node_ok first /\ node_ok lastc /\
+    (node_ok l' -> node_ok body') /\
+    (forall P, pos_only P -> (forall K, goodK P K -> HK K (tr lastc) (tr l')) -> forall K, goodK P K -> HK K (tr body) (tr body')) /\
+    (forall a, den (tr first) a = [] -> den (tr body) a = []) /\
+    (forall a, den (tr first) a = [] -> den (tr body') a = []).
+Proof.
+  induction body as [t o ch m n str st kids IHk] using rnode_ind'. intros body' H Hok.
+  cbn [fo_body_last] in H.
+  set (body := RN t o ch m n str st kids) in *.
+  destruct ((t =? T_Capture) && Z.testbit strict 1 && negb (n =? -1)) eqn:Ebal; [discriminate|].
+  rewrite Hs1, andb_true_r in Ebal.
+  destruct (t =? T_Capture) eqn:Ecap.
+  { destruct kids as [|c cs]; [discriminate|].
+    destruct (fo_body_last strict c k) as [r| | |] eqn:Er; cbn [bind] in H; try discriminate.
+    destruct r as [c'|]; [|discriminate]. injection H as <-.
+    assert (Hcs : cs = []).
+    { destruct (kids_one body ltac:(cbn; unfold T_Capture in *; lia) (proj1 Hok)) as [k0 Hk0]. cbn in Hk0. injection Hk0 as _ ->. reflexivity. }
+    subst cs. inversion IHk as [|? ? IH0 _]; subst.
+    assert (Hc : node_ok c) by (apply (node_ok_kid sets body); [exact Hok | left; reflexivity]).
+    destruct (IH0 c' Er Hc) as (first & lastc & l' & Hk & Hf & Hl & Hokb & HHK & Hd & Hd').
+    exists first, lastc, l'. split; [exact Hk|]. split; [exact Hf|]. split; [exact Hl|].
+    assert (Etr : tr body = NCapture o m n (tr c)) by (apply tr_capture; [unfold body; cbn; unfold T_Capture in *; lia | reflexivity]).
+    assert (Etr' : tr (RN t o ch m n str st [c']) = NCapture o m n (tr c')) by (apply tr_capture; [cbn; unfold T_Capture in *; lia | reflexivity]).
+    split; [|split; [|split]].
+    - intros Hl'. apply (node_ok_set_kids body [c'] Hok eq_refl). constructor; [apply Hokb; exact Hl'|constructor].
+    - intros P HP Hleaf K HK. rewrite Etr, Etr'. replace n with (-1) by lia. apply HK_capture. intros s Hs.
+      apply (HHK P HP Hleaf); [|exact Hs]. apply goodK_kcap; assumption.
+    - intros a Ha. rewrite Etr, fd_den_capture, (Hd a Ha). reflexivity.
+    - intros a Ha. rewrite Etr', fd_den_capture, (Hd' a Ha). reflexivity. }
+  destruct (t =? T_Concatenate) eqn:Econ; [|discriminate].
+  destruct kids as [|first krest] eqn:Ekids; [discriminate|].
+  destruct (rev (first :: krest)) as [|lastc rpre] eqn:Erev; [discriminate|].
+  destruct (k first lastc) as [r| | |] eqn:Ek; cbn [bind] in H; try discriminate.
+  destruct r as [l'|]; [|discriminate]. injection H as <-. change (rev (l' :: rpre)) with (rev rpre ++ [l']).
+  apply rev_cons_inv in Erev.
+  exists first, lastc, l'. split; [exact Ek|].
+  assert (Hfirst : node_ok first) by (apply (node_ok_kid sets body); [exact Hok | left; reflexivity]).
+  assert (Hlast : node_ok lastc) by (apply (node_ok_kid sets body); [exact Hok | unfold body; cbn [n_kids]; rewrite Erev; apply in_or_app; right; left; reflexivity]).
+  assert (Hpre : Forall node_ok (rev rpre)).
+  { rewrite Forall_forall. intros x Hx. apply (node_ok_kid sets body); [exact Hok | unfold body; cbn [n_kids]; rewrite Erev; apply in_or_app; left; exact Hx]. }
+  split; [exact Hfirst|]. split; [exact Hlast|].
+  assert (Etr : tr body = NConcat o (map tr (rev rpre) ++ [tr lastc])).
+  { rewrite (tr_concat sid body) by (unfold body; cbn; unfold T_Concatenate in *; lia). unfold body. cbn [n_o n_kids]. rewrite Erev, map_app. reflexivity. }
+  assert (Etr' : tr (RN t o ch m n str st (rev rpre ++ [l'])) = NConcat o (map tr (rev rpre) ++ [tr l'])).
+  { rewrite (tr_concat sid) by (cbn; unfold T_Concatenate in *; lia). cbn [n_o n_kids]. rewrite map_app. reflexivity. }
+  assert (Hfirst_in : forall x, tr (RN t o ch m n str st (x)) = tr (RN t o ch m n str st x)) by reflexivity.
+  assert (Hhd : exists tl, rev rpre ++ [lastc] = first :: tl) by (exists krest; symmetry; exact Erev).
+  split; [|split; [|split]].
+  - intros Hl'. apply (node_ok_set_kids body (rev rpre ++ [l']) Hok).
+    + unfold body. cbn [n_kids]. rewrite Erev, !app_length. reflexivity.
+    + apply Forall_app. split; [exact Hpre | constructor; [exact Hl'|constructor]].
+  - intros P HP Hleaf K HK. rewrite Etr, Etr'. apply HK_concat_at; [apply okps_nodes; exact Hpre|].
+    apply Hleaf. eapply goodK_ext; [intros a; apply kseq_nil | exact HK].
+  - intros a Ha. rewrite (tr_concat sid body) by (unfold body; cbn; unfold T_Concatenate in *; lia).
+    unfold body. cbn [n_o n_kids map]. rewrite fd_den_concat. cbn [den_seq]. rewrite Ha. reflexivity.
+  - intros a Ha. rewrite (tr_concat sid) by (cbn; unfold T_Concatenate in *; lia). cbn [n_o n_kids].
+    destruct Hhd as [tl Htl].
+    destruct (rev rpre) as [|p0 pr] eqn:Epr.
+    + (* the body is the single loop: then first = lastc *)
+      cbn [app] in Htl. injection Htl as <- <-. cbn [app map]. rewrite fd_den_concat. cbn [den_seq].
+      exfalso. pose proof (fo_wf_arity body (proj1 Hok)) as Har. unfold body in Har. cbn [n_t n_kids length] in Har.
+      cbn [app] in Erev. injection Erev as Ekr. subst krest.
+      unfold fo_arity_ok in Har. replace t with 25 in Har by (unfold T_Concatenate in *; lia). cbn in Har. discriminate.
+    + cbn [app] in Htl. injection Htl as -> _. cbn [app map]. rewrite fd_den_concat. cbn [den_seq]. rewrite Ha. reflexivity.
+Qed.
+
+Lemma wf_loop_bounds x : fo_wf x = true -> n_t x = 26 \/ n_t x = 27 -> 0 <= n_m x <= n_n x.
+Proof.
+  rewrite fo_wf_unfold. intros H Ht. replace ((n_t x =? 26) || (n_t x =? 27)) with true in H by lia.
+  repeat (apply andb_prop in H; destruct H as [H ?]). lia.
+Qed.
+
+(* canBeMadeAtomic without allowLazy says true for a greedy loop only *)
+Lemma cbma_true_greedy : forall f n sub c iter seen,
+  fo_cbma cat_in isw isew f strict n sub c iter false seen = Ok true -> node_ok sub -> ctx_ok c ->
+  fo_is_charloop (n_t n) = true.
+Proof.
+  induction f as [|f IHf]; intros n sub c iter seen H Hsub Hc; [discriminate|].
+  rewrite fo_cbma_S in H. destruct (fo_descend sub c) as [s ctx1] eqn:Ed.
+  destruct (descend_sound cat_in sid e sets strict Hs0 Hs1 Hs2 n sub c s ctx1 Ed Hsub Hc) as (Hs & Hc1 & _).
+  destruct (negb (n_o n =? n_o s)); [discriminate|]. destruct (useRTL (n_o n)); [discriminate|]. cbv zeta in H.
+  destruct ((n_t s =? T_Alternate) || (n_t s =? T_ExprCond) && (zlen (n_kids s) =? 3)) eqn:Ealt.
+  - assert (exists k ks, n_kids s = k :: ks) as (k & ks & Ek).
+    { pose proof (fo_wf_arity s (proj1 Hs)) as Har. destruct (n_kids s) as [|k ks] eqn:Ek; [|exists k, ks; reflexivity]. exfalso.
+      unfold fo_arity_ok in Har. destruct (n_t s =? T_Alternate) eqn:Ea.
+      - replace (n_t s) with 24 in Har by (unfold T_Alternate in *; lia). cbn in Har. discriminate.
+      - replace (n_t s) with 34 in Har by (unfold T_Alternate, T_ExprCond in *; lia). cbn in Har. discriminate. }
+    rewrite Ek in H. cbn [fo_branches] in H.
+    destruct (fo_cbma cat_in isw isew f strict n k (mkF (n_t s) false true ks :: ctx1) iter false seen) as [b| | |] eqn:Eb; cbn [bind] in H; try discriminate.
+    destruct b; [|discriminate].
+    apply (IHf _ _ _ _ _ Eb).
+    + apply (node_ok_kid sets s); [exact Hs | rewrite Ek; left; reflexivity].
+    + constructor; [|exact Hc1]. cbn [f_rights]. rewrite Forall_forall. intros r Hr.
+      apply (node_ok_kid sets s); [exact Hs | rewrite Ek; right; exact Hr].
+  - destruct (fo_verdict cat_in isw isew n s false) as [v| | |] eqn:Ev; cbn [bind] in H; try discriminate.
+    assert (Hv : v <> 0) by (intros ->; cbn in H; discriminate).
+    unfold fo_verdict in Ev. rewrite !andb_false_r, !orb_false_r in Ev.
+    unfold fo_is_charloop.
+    destruct (n_t n =? T_Oneloop); [reflexivity|]. destruct (n_t n =? T_Notoneloop); [reflexivity|].
+    destruct (n_t n =? T_Setloop); [reflexivity|]. injection Ev as <-. contradiction.
+Qed.
+
+(* what follows an iteration of the loop, at a state where the NEXT iteration (and leaving) start with a dead body *)
+Lemma goodK_kiter (P : st -> Prop) (KN : kont) (B' : st -> list st) (limit mark count : Z) :
+  0 <= limit -> (forall q, sok q -> P q -> B' q = []) -> (forall a, sok a -> okl e (B' a)) ->
+  goodK P KN -> goodK P (kiter KN B' false limit mark count).
+Proof.
+  intros Hlim Hdead Hok HK.
+  assert (Hq0 : forall q, sok q -> P q -> iterD B' false limit q mark count = [q] \/ iterD B' false limit q mark count = []).
+  { intros q Hq HPq. rewrite fd_iterD_eq. unfold iter_again. rewrite (Hdead q Hq HPq). cbn [flat_map app].
+    destruct ((limit <=? count) || (pos q =? mark) && (0 <=? count)); [left; reflexivity|].
+    destruct (0 <=? count); [left|right]; reflexivity. }
+  destruct (Z_lt_ge_dec count 0) as [Hneg|Hnn].
+  - (* iterations still owed: leaving is not an option, so the continuation is dead there *)
+    left. intros q Hq HPq. unfold kiter. rewrite fd_iterD_eq. unfold iter_again. rewrite (Hdead q Hq HPq). cbn [flat_map app].
+    replace ((limit <=? count) || (pos q =? mark) && (0 <=? count)) with false by lia.
+    replace (0 <=? count) with false by lia. reflexivity.
+  - destruct HK as [HD|HT].
+    + left. intros q Hq HPq. unfold kiter. destruct (Hq0 q Hq HPq) as [-> | ->]; cbn [flat_map]; [rewrite (HD q Hq HPq)|]; reflexivity.
+    + right. intros a Ha. unfold kiter. rewrite fd_iterD_eq.
+      destruct ((limit <=? count) || (pos a =? mark) && (0 <=? count)).
+      * cbn [flat_map]. specialize (HT a Ha). destruct (KN a); [contradiction|discriminate].
+      * replace (0 <=? count) with true by lia. rewrite flat_map_app. cbn [flat_map].
+        specialize (HT a Ha). destruct (KN a); [contradiction|]. intros E. apply app_eq_nil in E. destruct E as [_ E]. discriminate.
+Qed.
+
 Theorem pn_sound : forall f node sub c node',
   fo_pn cat_in isw isew f strict node sub c = Ok node' ->
   node_ok node -> node_ok sub -> ctx_ok c ->
@@ -383,8 +533,62 @@ Proof.
         rewrite Ho', Hm', Hn'. replace (n_n node) with (-1) by lia.
         apply HK_capture. intros s Hs. apply HHK; [|exact Hs]. apply Adm_kcap; [exact Hs|exact HA]. }
   destruct (n_t node =? T_Loop) eqn:Eloop.
-  { unfold fo_loop_last in H. rewrite Hs3 in H. cbn [bind] in H. injection H as <-.
-    split; [exact Hn|]. intros KN _. apply HK_refl. }
+  { assert (Et : n_t node = T_Loop) by lia.
+    destruct (kids_one node ltac:(unfold T_Loop in Et; lia) (proj1 Hn)) as [b Eb].
+    unfold fo_loop_last in H. rewrite Eb in H.
+    set (k0 := fun first lastc : rnode =>
+                 do b0 <- fo_cbma cat_in isw isew f strict lastc first [] false false false ;
+                 if b0 then (do l' <- pn_leaf (fun k => fo_pn cat_in isw isew f strict k sub c) f sub c lastc ; Ok (Some l')) else Ok None) in *.
+    destruct (fo_body_last strict b k0) as [r| | |] eqn:Er; cbn [bind] in H; try discriminate.
+    destruct r as [b'|]; [|injection H as <-; split; [exact Hn|intros KN _; apply HK_refl]].
+    injection H as <-.
+    assert (Hb : node_ok b) by (apply (node_ok_kid sets node); [exact Hn | rewrite Eb; left; reflexivity]).
+    (* the leaf and what the two calls of canBeMadeAtomic say *)
+    assert (Hk0 : forall first lastc l', k0 first lastc = Ok (Some l') -> node_ok first -> node_ok lastc ->
+              node_ok l' /\
+              (forall q, sok q -> PQ lastc q -> den (tr first) q = []) /\
+              (forall KN, Adm sub c KN -> forall K, goodK (PQ lastc) KN -> goodK (PQ lastc) K -> HK K (tr lastc) (tr l')) /\
+              (forall KN, Adm sub c KN -> l' = lastc \/ goodK (PQ lastc) KN)).
+    { intros first lastc l' Hk Hf Hl. unfold k0 in Hk.
+      destruct (fo_cbma cat_in isw isew f strict lastc first [] false false false) as [b0| | |] eqn:E1; cbn [bind] in Hk; try discriminate.
+      destruct b0; [|discriminate].
+      destruct (pn_leaf (fun k => fo_pn cat_in isw isew f strict k sub c) f sub c lastc) as [l1| | |] eqn:El; cbn [bind] in Hk; try discriminate.
+      injection Hk as <-.
+      pose proof (cbma_true_greedy f lastc first [] false false E1 Hf (Forall_nil _)) as Hgl.
+      assert (Hfirst : forall q, sok q -> PQ lastc q -> den (tr first) q = []).
+      { destruct (cbma_sound cat_in isw isew sid e sets Henv strict Hs0 Hs1 Hs2 f lastc first [] false false false E1 Hl Hf (Forall_nil _))
+          as [HD|(Habs & _)]; [|discriminate].
+        intros q Hq HPq. pose proof (HD kid (KT_kid e) q Hq HPq) as H0. unfold FinalOptK.kb, kid in H0. rewrite flat_map_single in H0. exact H0. }
+      unfold pn_leaf in El. cbv zeta in El. rewrite Hgl in El.
+      destruct (fo_cbma cat_in isw isew f strict lastc sub c true false false) as [b2| | |] eqn:E2; cbn [bind] in El; try discriminate.
+      injection El as <-. destruct b2.
+      - split; [apply node_ok_mla_greedy; assumption|]. split; [exact Hfirst|]. split.
+        + intros KN HA K _ HK. apply leaf_step_greedy; [exact Hgl | exact Hl | exact (cbma_true_ltr _ _ _ _ _ _ _ E2) | exact HK].
+        + intros KN HA. right.
+          destruct (cbma_sound cat_in isw isew sid e sets Henv strict Hs0 Hs1 Hs2 f lastc sub c true false false E2 Hl Hsub Hc)
+            as [HD|(_ & _ & HT)]; [left; apply (proj1 (HA lastc)); exact HD | right; apply (proj2 (HA lastc)); exact HT].
+      - split; [exact Hl|]. split; [exact Hfirst|]. split; [intros; apply HK_refl | intros; left; reflexivity]. }
+    destruct (body_last_sound k0 b b' Er Hb) as (first & lastc & l' & Hk & Hf & Hl & Hokb & HHK & Hd & Hd').
+    destruct (Hk0 first lastc l' Hk Hf Hl) as (Hl' & Hfirst & Hleaf & Hgood).
+    assert (Hb' : node_ok b') by (apply Hokb; exact Hl').
+    destruct (set_kids_fields node [b']) as (Ht' & Ho' & _ & Hm' & Hn' & _ & _ & Hk2).
+    split; [apply node_ok_set_kids; [exact Hn | rewrite Eb; reflexivity | constructor; [exact Hb'|constructor]]|].
+    intros KN HA.
+    rewrite (tr_loop sid node b Et Eb). rewrite (tr_loop sid (set_kids node [b']) b') by (first [exact Hk2 | rewrite Ht'; exact Et]).
+    rewrite Ho', Hm', Hn'.
+    destruct (Hgood KN HA) as [Esame|HgKN].
+    - (* canBeMadeAtomic said no for what follows the loop: the child is left alone *)
+      subst l'. apply HK_loop_iter; [apply (node_ok_okp sid e sets); exact Hb|]. intros mark count.
+      apply (HHK (fun _ => False) ltac:(intros ? ? ? []) ); [intros; apply HK_refl|].
+      left. intros q _ [].
+    - apply HK_loop_iter; [apply (node_ok_okp sid e sets); exact Hb|]. intros mark count.
+      assert (Hlim : 0 <= loop_limit (n_m node) (n_n node)).
+      { pose proof (wf_loop_bounds node (proj1 Hn) ltac:(left; unfold T_Loop in Et; exact Et)) as Hb1. unfold loop_limit. destruct (n_n node =? INF); unfold INF in *; lia. }
+      apply (HHK (PQ lastc) (pos_only_PQ lastc)).
+      + intros K HK. apply (Hleaf KN HA K HgKN HK).
+      + apply goodK_kiter; [exact Hlim| | |exact HgKN].
+        * intros q Hq HPq. apply Hd'. apply Hfirst; assumption.
+        * apply (node_ok_okp sid e sets). exact Hb'. }
   (* the switch *)
   unfold pn_leaf in H. cbv zeta in H.
   destruct (fo_is_charloop (n_t node)) eqn:Egl.
